@@ -140,6 +140,14 @@ impl Resolver<'_> {
 
             inner_closure.env = func_env.into_exprs();
 
+            if matches!(inner_closure.body.kind, ExprKind::Internal(_)) {
+                // a partially applied built-in function: its remaining parameters are
+                // positional and cannot be bound by name in its body, so it must keep
+                // them (splitting them off made `x -> take x` reach the built-in with
+                // too few arguments: "bad special function cast")
+                return Ok(Expr::new(ExprKind::Func(inner_closure)));
+            }
+
             let (got, missing) = inner_closure.params.split_at(inner_closure.args.len());
             let missing = missing.to_vec();
             inner_closure.params = got.to_vec();
